@@ -13,7 +13,7 @@ import fam_cwrap
 class Unit:
     def __init__(self, name, fam, target, props, inline=(), stubs=(), assumed=(), decls=(), lemmas=(), macros=(), insts=(), mode='P',
                  unwind=None, solver='minisat', timeout=600, mem_gb=8, thorough_insts=(), notes='', object_bits=12, harness=None,
-                 frame_ghost_only=False, extra_flags=(), canary=True, spec=('pgm.spec',), cases=None, assumptions=(), partition=0, defines=(), drop_checks=(), extract_from=None, target_sig=None, attach=(), lemma_only=False, thorough_only_props=()):
+                 frame_ghost_only=False, extra_flags=(), canary=True, spec=('pgm.spec',), cases=None, assumptions=(), partition=0, defines=(), drop_checks=(), extract_from=None, target_sig=None, attach=(), lemma_only=False, thorough_only_props=(), plain=False):
         self.name, self.fam, self.target, self.props = name, fam, target, list(props)
         self.inline, self.stubs, self.assumed = list(inline), list(stubs), list(assumed)
         self.decls, self.lemmas, self.macros = list(decls), list(lemmas), list(macros)
@@ -30,6 +30,7 @@ class Unit:
         self.defines = list(defines)
         self.drop_checks = list(drop_checks)
         self.extract_from, self.target_sig, self.attach = extract_from, target_sig, list(attach)
+        self.plain = plain
         self.lemma_only = lemma_only
         self.thorough_only_props = list(thorough_only_props)   # properties this unit serves in the thorough tier only (too slow to repeat per property on every change)
 
@@ -244,7 +245,8 @@ U('mapped_serialize', fam_mapped, 'Mapped_serialize_and_map', ['C12', 'C17'], as
   assumptions=['std::fstream write/seekp and mmap are replaced by logging stubs [A]: a write advances the stream by the size written; map_file exposes the file',
                'the constructors (field initialisation, build, the order of calls) and the load constructor are not under contract: bounded link mapped_files_link'])
 
-U('mapped_load_ctor', fam_mapped, 'Mapped_load_ctor', ['C12', 'C17'], assumed=['PGMBase_value_init', 'pgmv_fstream_open', 'pgmv_read_member', 'pgmv_read_container', 'pgmv_map_file'],
-  decls=['mapped_ghost', 'ser_ghost', 'load_ghost'], insts=[kinst('uint64_t'), kinst('int32_t')], thorough_insts=MAPPED_ALL, spec=('mapped.spec',), timeout=900, drop_checks=['--conversion-check'],
-  assumptions=['std::fstream read and mmap are replaced by logging stubs [A]: a read fills its destination from the current offset and advances by the size read',
-               'the content of the file at offsets 0/8/16 is what the writer contract (unit mapped_serialize) put there: linked by the ghost file content g_file_*, not by a byte-level file model'])
+U('mapped_roundtrip', fam_mapped, 'pgmv_harness', ['C12', 'C17'], inline=['Mapped_serialize_and_map'], extract_from='Mapped_load_ctor', plain=True, harness='@decl:roundtrip_harness',
+  decls=['mapped_ghost', 'ser_ghost', 'roundtrip_stubs'], insts=[kinst('uint64_t'), kinst('int32_t')], thorough_insts=MAPPED_ALL, spec=('mapped.spec',), timeout=900, drop_checks=['--conversion-check'],
+  assumptions=['harness proof, not a per-function contract: a ghost harness calls the two real bodies (serialize_and_map, then the loading constructor) on fully symbolic inputs and asserts the round trip; the key loop is closed by its loop contract, everything else is loop-free',
+               'std::fstream read/write/seekp and mmap are replaced by stub bodies over a two-offset file model [A]: the file is observed at two universally quantified offsets; header writes do not partially overlap',
+               'the element bytes of the two vectors and the construction paths before serialize_and_map (build, first_key, n) are outside this unit: bounded link mapped_files_link'])
